@@ -7,6 +7,53 @@
 namespace vf {
 namespace {
 
+// independent segment-segment squared distance (Ericson 5.1.9)
+double SegSegDist2(vec3 p1, vec3 q1, vec3 p2, vec3 q2) {
+  vec3 d1 = q1 - p1, d2 = q2 - p2, r = p1 - p2;
+  double a = la::dot(d1, d1), e = la::dot(d2, d2), f = la::dot(d2, r), s, t;
+  if (a <= 1e-300 && e <= 1e-300) return la::dot(r, r);
+  if (a <= 1e-300) { s = 0; t = std::clamp(f / e, 0.0, 1.0); }
+  else {
+    double c = la::dot(d1, r);
+    if (e <= 1e-300) { t = 0; s = std::clamp(-c / a, 0.0, 1.0); }
+    else {
+      double b = la::dot(d1, d2), denom = a * e - b * b;
+      s = denom > 1e-300 ? std::clamp((b * f - c * e) / denom, 0.0, 1.0) : 0.0;
+      t = (b * s + f) / e;
+      if (t < 0) { t = 0; s = std::clamp(-c / a, 0.0, 1.0); }
+      else if (t > 1) { t = 1; s = std::clamp((b - c) / a, 0.0, 1.0); }
+    }
+  }
+  vec3 d = (p1 + d1 * s) - (p2 + d2 * t);
+  return la::dot(d, d);
+}
+// brute-force minimum distance between two DISJOINT triangle meshes: the minimum is attained
+// vertex-to-triangle or edge-to-edge
+double MeshMeshDist(const MeshGL64& A, const MeshGL64& B) {
+  double best = 1e300;
+  for (size_t i = 0; i < (size_t)A.NumTri(); i++) {
+    auto ta = A.GetTriVerts(i);
+    vec3 a[3] = {A.GetVertPos(ta[0]), A.GetVertPos(ta[1]), A.GetVertPos(ta[2])};
+    for (size_t j = 0; j < (size_t)B.NumTri(); j++) {
+      auto tb = B.GetTriVerts(j);
+      vec3 b[3] = {B.GetVertPos(tb[0]), B.GetVertPos(tb[1]), B.GetVertPos(tb[2])};
+      for (int k = 0; k < 3; k++) {
+        best = std::min(best, PointTriDist2(a[k], b[0], b[1], b[2]));
+        best = std::min(best, PointTriDist2(b[k], a[0], a[1], a[2]));
+        for (int l = 0; l < 3; l++) best = std::min(best, SegSegDist2(a[k], a[(k + 1) % 3], b[l], b[(l + 1) % 3]));
+      }
+    }
+  }
+  return std::sqrt(best);
+}
+bool TightBox(const Manifold& m, const MeshGL64& g) {
+  if (g.NumTri() == 0) return true;
+  vec3 lo(1e300), hi(-1e300);
+  for (size_t v = 0; v < (size_t)g.NumVert(); v++) { vec3 p = g.GetVertPos(v); lo = la::min(lo, p); hi = la::max(hi, p); }
+  Box b = m.BoundingBox();
+  return b.min == lo && b.max == hi;
+}
+
 Manifold Prim(const std::string& k, std::mt19937& rng) {
   std::uniform_real_distribution<double> U(0.6, 1.4);
   if (k == "cube") return Manifold::Cube({U(rng), U(rng), U(rng)}, true);
@@ -94,7 +141,27 @@ struct Runner {
     const OpType op = opn == "Add" ? OpType::Add : opn == "Subtract" ? OpType::Subtract : OpType::Intersect;
     Manifold R = P.Boolean(Q, op);
     if (R.Status() != Manifold::Error::NoError) { fail("genpos:status", {{"status", ErrName(R.Status())}}); return; }
+    // C18 in general position, BEFORE anything forces the operands: the lazily transformed result's BoundingBox must be
+    // the tight box of its exported vertices (bbox-disjoint unions are composed with pending transforms)
+    {
+      Manifold L = P.Boolean(Q, op);
+      const Box lb = L.BoundingBox();
+      const MeshGL64 gl = L.GetMeshGL64();
+      if (!TightBox(L, gl)) fail("measure:bbox", {{"why", "BoundingBox of a lazily evaluated result is not the tight box of its vertices"}, {"seed", seed},
+                                                   {"bbox", {lb.min.x, lb.min.y, lb.min.z, lb.max.x, lb.max.y, lb.max.z}}});
+    }
     const MeshGL64 gp = P.GetMeshGL64(), gq = Q.GetMeshGL64(), gr = R.GetMeshGL64();
+    if (!TightBox(P, gp) || !TightBox(Q, gq) || !TightBox(R, gr)) fail("measure:bbox", {{"why", "BoundingBox is not the tight box of the vertices"}, {"seed", seed}});
+    // MinGap = minimum triangle-to-triangle distance clamped to the search length (0 when the solids intersect)
+    if (gp.NumTri() * gq.NumTri() < 400000) {
+      const double vInt = (P ^ Q).Volume();
+      const double brute = vInt > 1e-9 ? 0.0 : MeshMeshDist(gp, gq);
+      for (double L : {0.25, 100.0}) {
+        const double want = std::min(L, brute), g1 = P.MinGap(Q, L), g2 = Q.MinGap(P, L);
+        if (vInt > 1e-9 ? (g1 != 0 || g2 != 0) : (std::fabs(g1 - want) > 1e-9 || std::fabs(g2 - want) > 1e-9))
+          fail("measure:mingap", {{"L", L}, {"want", want}, {"got", g1}, {"gotReversed", g2}, {"seed", seed}});
+      }
+    }
     const double tol = std::max({R.GetTolerance(), P.GetTolerance(), Q.GetTolerance(), 1e-9}) * 4 + 1e-9;
     Box bb = P.BoundingBox().Union(Q.BoundingBox());
     std::uniform_real_distribution<double> X(bb.min.x - 0.2, bb.max.x + 0.2), Y(bb.min.y - 0.2, bb.max.y + 0.2), Z(bb.min.z - 0.2, bb.max.z + 0.2);
